@@ -181,9 +181,11 @@ def runtime_part(run, jobs):
                              for k in range(0, ngen + 1)}
             ws = pool_workers or sorted(rng.sample(range(1, 9), 3))
             entry["pool"] = []
-            allkinds = ["mp", "cf", "mp_imap", "cf_thread"]
+            # mp/mp_imap/cf: forked workers; mp_spawn: workers are fresh interpreters that rebuild types, primitive set and
+            # toolbox in an initializer; cf_thread: threads
+            allkinds = ["mp", "cf", "mp_imap", "mp_spawn", "cf_thread"]
             for w in ws:
-                kinds = [allkinds[(w + si) % 4], allkinds[(w + si + 1) % 4]] if thorough else [rng.choice(allkinds[:3])]
+                kinds = [allkinds[(w + si) % 5], allkinds[(w + si + 2) % 5]] if thorough else [rng.choice(allkinds[:4])]
                 for kind in kinds:
                     ds = rng.randrange(10 ** 6)
                     sched = {"workers": w, "pool_kind": kind, "delay_seed": ds}
